@@ -18,7 +18,9 @@ LEVEL_TEXT = (
     "class by class (C01_assets_add/_sub/_neg/_sub_chain, reread_canonical); (3) the lovelace fragment: every "
     "combination of Ada(i), + and - over the integer fragment lowers and, once the arguments are applied, reduces to a "
     "constant asset list denoting exactly the lovelace amount integer arithmetic gives and nothing else "
-    "(C01_lovelace_fragment). Per generated program (two layouts of the same tree) the real parse, analyze, lower, "
+    "(C01_lovelace_fragment); (4) the multi-asset fragment: the same with the constructors of assets the program "
+    "declares with constant policy and name, Tok(i): the reduced constant denotes, class by class, the amounts integer "
+    "arithmetic gives, for every nesting of + and - (C01_multi_asset_fragment). Per generated program (two layouts of the same tree) the real parse, analyze, lower, "
     "resolve_tx (apply, reduce, input selection, compile) is run; the lowered IR must equal the model's, and the "
     "transaction bytes, decoded by the Lean Conway reader, must hold exactly the inputs, outputs (address, lovelace, "
     "native assets, inline datum, in source order), mint, validity interval, signers, reference inputs, metadata "
@@ -26,20 +28,20 @@ LEVEL_TEXT = (
     "on; both layouts must give the same IR and the same bytes."
 )
 LEVEL_NOTE = (
-    "Partial: the end-to-end equation (lower, apply, reduce = denotation) is proved for the integer and the lovelace "
-    "fragments; multi-asset arithmetic is proved at the reducer level for every asset class (native-asset constructors "
-    "in the source language, inputs as asset values, are per case); records with spread, property access, inputs, selection and the Cardano compiler are compared "
+    "Partial: the end-to-end equation (lower, apply, reduce = denotation) is proved for the integer, the lovelace and "
+    "the declared-asset fragments (asset values read from inputs, AnyAsset and property access are per case); records with spread, property access, inputs, selection and the Cardano compiler are compared "
     "with [[.]] per case (compile exactness on constant IR is C02's theorems). min_utxo, slot/time built-ins, "
     "collateral, policies with scripts and chain-specific directives are not generated yet; names are unique, so "
     "shadowing between scopes is not exercised."
 )
 PROP = "C01"
-TARGETS = ["Tx3Proofs.C01", "Tx3Proofs.C01Assets", "Tx3Proofs.C01Lovelace"]
+TARGETS = ["Tx3Proofs.C01", "Tx3Proofs.C01Assets", "Tx3Proofs.C01Lovelace", "Tx3Proofs.C01MultiAsset"]
 THEOREMS = ["Tx3.Lang.eval_int", "Tx3.Lang.lower_int", "Tx3.Lang.C01_int_fragment", "Tx3.Lang.C01_sub_chain",
             "Tx3.Lang.C01_sub_chain_distinct",
             "Tx3.assetsOfChildren_amt", "Tx3.reread_canonical", "Tx3.C01_assets_add", "Tx3.C01_assets_neg",
             "Tx3.C01_assets_sub", "Tx3.C01_assets_sub_chain", "Tx3.arithAdd_ok", "Tx3.arithSub_ok",
-            "Tx3.Lang.lower_lovelace", "Tx3.Lang.C01_lovelace_fragment"]
+            "Tx3.Lang.lower_lovelace", "Tx3.Lang.C01_lovelace_fragment",
+            "Tx3.Lang.lower_multi", "Tx3.Lang.C01_multi_asset_fragment"]
 RULE = (
     "cases = generated programs over the core fragment: env (Int, Bytes), 2-3 parties, a policy, an asset, a record "
     "and a variant type; one transaction with 1-3 positive Int parameters, optionally an unconstrained Int, a Bytes "
